@@ -8,6 +8,8 @@
  *   tlv <hex> <lv>            KSI_TLV_parseBlob -> nested lists (recursively), serialize, toString, clone
  *   ftlv <hex>                KSI_FTLV_memRead, KSI_FTLV_memReadN
  *   el <hex>                  KSI_TlvElement_parse -> serialize
+ *   ffile <hex> <bufsize>     KSI_FTLV_fileRead from a file holding the octets into a heap buffer of exactly bufsize
+ *   svc <text-hex>            KSI_CTX_setAggregator / setExtender / setPublicationUrl with the URI (full split incl. user info)
  *   uri <text-hex>            KSI_UriSplitBasic            alg <text-hex>   KSI_getHashAlgorithmByName
  *   => <letter><status> …
  */
@@ -134,6 +136,22 @@ static void do_line(char *work, const char *orig) {
 		r = len ? KSI_FTLV_memReadN(raw, len, arr, 8, &rd) : KSI_INVALID_ARGUMENT;
 		printf(" N%d:%zu", r, rd);
 		free(raw);
+	} else if (n >= 3 && !strcmp(w[0], "ffile")) {
+		size_t len, bs = strtoul(w[2], NULL, 10), consumed = 0; unsigned char *raw = exact(w[1], &len), *buf = malloc(bs ? bs : 1); KSI_FTLV f; int r;
+		FILE *fp = tmpfile();
+		memset(&f, 0, sizeof(f));
+		if (fp == NULL) { printf("NO-TMPFILE"); free(raw); free(buf); return; }
+		if (len) fwrite(raw, 1, len, fp);
+		rewind(fp);
+		r = KSI_FTLV_fileRead(fp, buf, bs, &consumed, &f);
+		printf("R%d:%zu", r, consumed);
+		fclose(fp); free(raw); free(buf);
+	} else if (n >= 2 && !strcmp(w[0], "svc")) {
+		KSI_CTX *ctx = mkctx("0"); char *s = text(w[1]);
+		printf("A%d", KSI_CTX_setAggregator(ctx, s, "user", "key"));
+		printf(" X%d", KSI_CTX_setExtender(ctx, s, "user", "key"));
+		printf(" P%d", KSI_CTX_setPublicationUrl(ctx, s));
+		KSI_CTX_free(ctx); free(s);
 	} else if (n >= 2 && !strcmp(w[0], "el")) {
 		size_t len; unsigned char *raw = exact(w[1], &len); KSI_TlvElement *e = NULL; int r;
 		r = len ? KSI_TlvElement_parse(raw, len, &e) : KSI_INVALID_ARGUMENT;
